@@ -191,9 +191,17 @@ def main():
         per = collections.defaultdict(list)
         ins = outs = None
         consts = set()
+        unstable = set()
         for sample in data[key]:
           ref, ins, outs, sg = own_run(mb, key, sample)
           tg, _, _, _ = own_run(target, key, sample)
+          # tensors on which two runs of the SAME model disagree (F20: the hybrid
+          # depthwise kernel on per-tensor weights reads uninitialised data) have
+          # no well-defined content to compare the reported value with
+          tg2, _, _, _ = own_run(target, key, sample)
+          for nm in tg:
+            if nm in tg2 and not np.array_equal(tg[nm], tg2[nm], equal_nan=True):
+              unstable.add(nm)
           for nm, v in ref.items():
             if nm in tg:
               per[nm].append(ref_metric(metric, tg[nm], v))
@@ -214,6 +222,9 @@ def main():
             seen[nm] += 1
             if nm in want and nm not in model_names:
               dist['runtime_temporaries_skipped'] += 1
+              continue
+            if nm in unstable:
+              dist['runtime_nondeterministic_skipped'] += 1
               continue
             if nm not in want:
               viol.append({'key': 'C18:unexpected-name', 'what': f'{mode} {key}: {nm} reported under {gname} '
